@@ -96,6 +96,15 @@ class _FStrLocals(ast.NodeTransformer):
                 counts[n.id] = counts.get(n.id, 0) + 1
         self.defs = {n.targets[0].id: n.value for n in ast.walk(fn) if isinstance(n, ast.Assign) and len(n.targets) == 1
                      and isinstance(n.targets[0], ast.Name) and counts.get(n.targets[0].id) == 1 and isinstance(n.value, ast.JoinedStr)}
+        # string pieces built by `+` and kept in a single-assignment local (`prefixed_name = prefix + self.name`)
+        self.cat = {n.targets[0].id: n.value for n in ast.walk(fn) if isinstance(n, ast.Assign) and len(n.targets) == 1
+                    and isinstance(n.targets[0], ast.Name) and counts.get(n.targets[0].id) == 1
+                    and (isinstance(n.value, ast.JoinedStr) or (isinstance(n.value, ast.BinOp) and isinstance(n.value.op, ast.Add)))}
+
+    def visit_Name(self, n):
+        if isinstance(n.ctx, ast.Load) and n.id in self.cat:
+            return self.visit(copy.deepcopy(self.cat[n.id]))
+        return n
 
     def visit_JoinedStr(self, n):
         vals = []
